@@ -5,7 +5,7 @@ ID = 'C02'
 COQ_TARGETS = ['Props/Properties_C02.vo']
 PROPS_FILES = ['Props/Properties_C02.v']
 THEOREMS = ['C02_message', 'C02_submission_additions', 'C02_submission_constants', 'C02_submission_full_refuted', 'C02_submission_partial',
-            'C02_handoff_message', 'C02_message_checker_sound', 'C02_envelope', 'C02_trace_received', 'C02_trace_spf_none']
+            'C02_handoff_message', 'C02_message_checker_sound', 'C02_envelope', 'C02_trace_received', 'C02_trace_spf_none', 'C02_trace_spf_none_is_c11']
 ENGINES = [ENGINE]
 RULE = ('sessions with one to three accepted transactions whose data exercise the copy loops: bodies of arbitrary octets 1..255 except bare CR/LF, '
         'lines of 0, 1, 997..999 octets, lines that are dots only or start with one to three dots, empty header, empty body, no separator line, '
@@ -22,7 +22,7 @@ TRUSTED_BASE = TRUSTED_COMMON + ['coq/Model/Trace.v: hand transcription of write
 ASSUMPTIONS = ASSUMPTIONS_COMMON + [
     'strings embedded in the trace header other than HELO argument and addresses (reverse DNS name, TCPREMOTEINFO, authenticated user name, certificate subject, cipher name) are assumed free of CR/LF; the user name of SMTP AUTH is client-chosen and only constrained by what checkpassword accepts',
     'submission mode: the date of the added Date: field is compared only as "the same 31 octets as the date of the Received: line" (both are masked by the harness), the Message-Id time stamp is the wrapped gettimeofday() of the harness, control/msgidhost is msgid.example.org (the default, control/me, is not exercised)',
-    'Received-SPF for results other than "none" is property C11',
+    'Received-SPF: the session model builds the field for result "none" itself (C02_trace_spf_none, equal to the C11 model: C02_trace_spf_none_is_c11); for pass / fail / softfail / neutral (SPF records of the fake resolver for example.org, example.com, shop.example.net, x.example.com, again.example.net) the compared header comes from the extracted C11 model (check_host + spfreceived of coq/Model/Spf.v) - its syntax theorem is C11_received_spf_clean; temperror / permerror fields are not produced in these runs',
 ]
 LEVEL_TEXT = ('Coq theorems: (message) for every reader state and byte stream, what smtp_data wrote when it reached the final dot is the trace header '
               'followed by exactly the transmitted data lines in order with CRLF -> LF and one leading dot removed; on the submission port exactly the missing '
@@ -35,7 +35,7 @@ LEVEL_TEXT = ('Coq theorems: (message) for every reader state and byte stream, w
               'a header line ".Date: x") and proved for all messages outside that decidable class (C02_submission_partial). '
               'Tied to the binary by byte-for-byte comparison of recorded hand-offs in whole-program runs.')
 LEVEL_NOTE = ('Partial: known finding F-C02-2 (a field hidden behind a needless leading dot is added a second time on port 587); the date text, the clock and control/msgidhost are oracles; '
-              'non-"none" Received-SPF is not in this model (C11); address normalisation (lower-casing) is the address oracle (C14).')
+              'Received-SPF other than "none" is compared through the extracted C11 model, not built by the session model itself; address normalisation (lower-casing) is the address oracle (C14).')
 TECHNIQUE = 'Coq loop invariant over smtp_data with a ghost list of data lines; simulation proof for envelopes; structural proof of the header builder; whole-program byte comparison of hand-offs'
 DESIGN_REF = 'DESIGN.md section 5, C02'
 
@@ -113,7 +113,7 @@ def classify(case, c_out):
 
 
 def distribution(results):
-    d = dict(handoffs=0, subm_handoffs=0, subm_added_date=0, subm_added_from=0, subm_added_msgid=0, subm_nothing_added=0, subm_mail_refused=0, r552=0, r550=0, simple_cases=0)
+    d = dict(spf_none=0, spf_pass=0, spf_fail=0, spf_softfail=0, spf_neutral=0, spf_absent=0, handoffs=0, subm_handoffs=0, subm_added_date=0, subm_added_from=0, subm_added_msgid=0, subm_nothing_added=0, subm_mail_refused=0, r552=0, r550=0, simple_cases=0)
     for r in results:
         f = r['case'].split()
         subm = len(f) > 1 and b'port=587' in R.unhx(f[1]).split(b';')
@@ -121,6 +121,9 @@ def distribution(results):
         for t in toks:
             if t.startswith('Q'):
                 d['handoffs'] += 1
+                mm = R.unhx(t.split('/')[1])
+                k = re.match(rb'Received-SPF: (\w+) ', mm)
+                d['spf_' + (k.group(1).decode().lower() if k else 'absent')] = d.get('spf_' + (k.group(1).decode().lower() if k else 'absent'), 0) + 1
                 if subm:
                     d['subm_handoffs'] += 1
                     m = R.unhx(t.split('/')[1])
